@@ -6,6 +6,8 @@
 (iii) pumped families pre + unit^k + post for every unit of <= 2 delimiter tokens, k growing geometrically:
       CPU time must stay under a budget and grow with an exponent <= 2.5 (container-opening units are pumped
       inline only up to the declared nesting bound of 12, and line-wise beyond).
+(iv)  every document of 3 (thorough: up to 4) short lines over a line alphabet x 7 containers (incl. lazy continuation)
+      x every line ending in {newline, backslash hard break, two-space hard break}.
 Oracle: returns str without raising, within the per-case watchdog; Markdown-mode output ends with a newline;
 no NUL / C0 control / internal placeholder that was not in the input; whitespace-only lines inside output code
 blocks carry no trailing spaces.
@@ -235,6 +237,65 @@ class Pumped(Space):
         return Outcome(viol=list(seen.items()), tags=tags)
 
 
+CONT = [("", ""), ("- ", "  "), ("> ", "> "), ("> ", ""), ("1. ", "   "), ("[^x]: ", "    "), ("- > ", "  > ")]
+LINE_ALPH = ["", "a", "a b", "\\", "-", "#", "`x", "{% t %}", "|", "1.", "***", "<b>", "[l](u)", "    x"]
+ENDS = ["\n", "\\\n", "  \n"]
+
+
+class Lines(Space):
+    """Documents of 2-4 short lines in every container, every line ended plainly or by either form of hard break (also
+    consecutive and leading / trailing hard breaks, empty segments, lazy continuation lines)."""
+    prop = "C12"
+    name = "lines"
+
+    def __init__(self, tier):
+        q = tier == "quick"
+        self.shapes = [(3, 8)] if q else [(3, len(LINE_ALPH)), (4, 6)]   # (number of lines, size of the line alphabet prefix)
+        self.floors = {"formatter-changed-text": 1000, "hard-break": 1000}
+
+    def cases(self):
+        for n, k in self.shapes:
+            for c in range(len(CONT)):
+                for ls in itertools.product(range(k), repeat=n):
+                    for es in itertools.product(range(len(ENDS)), repeat=n - 1):
+                        yield (c, ls, es)
+
+    def text(self, case):
+        c, ls, es = case
+        first, cont = CONT[c]
+        out = first
+        for i, l in enumerate(ls):
+            out += LINE_ALPH[l]
+            if i < len(es):
+                out += ENDS[es[i]] + cont
+        return out + "\n"
+
+    def describe(self, case):
+        return {"text": self.text(case)}
+
+    def smaller(self, case):
+        c, ls, es = case
+        if c:
+            yield (0, ls, es)
+        for i in range(len(ls)):
+            if len(ls) > 1:
+                yield (c, ls[:i] + ls[i + 1:], es[:i] + es[i + 1:] if i < len(es) else es[:-1])
+        for i in range(len(ls)):
+            if ls[i] > 1:
+                yield (c, ls[:i] + (1,) + ls[i + 1:], es)
+        for i in range(len(es)):
+            if es[i]:
+                yield (c, ls, es[:i] + (0,) + es[i + 1:])
+
+    def evaluate(self, case):
+        text = self.text(case)
+        viol, changed = run_all(text)
+        tags = ["formatter-changed-text"] if changed else []
+        if any(case[2]):
+            tags.append("hard-break")
+        return Outcome(viol=viol, tags=tags)
+
+
 def spaces(tier):
     q = tier == "quick"
-    return [Soup(3 if q else 5), Tokens(2 if q else 3), Pumped(tier)]
+    return [Soup(3 if q else 5), Tokens(2 if q else 3), Pumped(tier), Lines(tier)]
